@@ -230,6 +230,17 @@ theorem process_fresh (g : G) (v : Verifier F G) (e : EncDeal F G) (rnd : Nat) (
     rw [← hiff']
     simp [Option.isNone_iff_eq_none]
 
+/-- the verifier built for this dealer and list, holding the key `L[i]`, opens the dealer's deal for `i` -/
+theorem decrypt_addressee (g : G) (dlong eph : F) (L : List G) (i rnd : Nat) (d0 : Deal F G)
+    (e0 : EncDeal F G) (h0 : sealDeal g dlong L i eph rnd (.deal d0) = some e0)
+    (v : Verifier F G) (hdl : v.dealer = dlong • g) (hl : v.vs = L) (hk : L[i]? = some (v.long • g)) :
+    decryptDeal g v e0 = .ok d0 := by
+  unfold sealDeal at h0
+  simp only [hk, Option.some.injEq] at h0
+  subst h0
+  refine (decryptDeal_ok_iff g v _ d0).2 ⟨⟨dlong, rnd, rfl, hdl.symm⟩, eph • g, rfl, by simp [nonceSize], ?_⟩
+  simp [Verifier.ctx, hdl, hl, smul_comm v.long eph g]
+
 /-- a failed decryption leaves the verifier untouched (no aggregator, no deal, no response) -/
 theorem process_decrypt_error (g : G) (v : Verifier F G) (e : EncDeal F G) (rnd : Nat) (err : Err)
     (h : decryptDeal g v e = .error err) : processEncryptedDeal g v e rnd = (v, .error err) := by
